@@ -61,8 +61,16 @@ func (s *Spec) DFA() (*auto.DFA, map[grammar.Terminal][]auto.State, error) {
 	}
 
 	// Map each terminal to a set of final states while ensuring each final state identifies a single terminal.
+	// The final states are visited in sorted order, so the diagnostics come out in the same order on every run.
+	finals := make([]auto.State, 0, len(stateDefs))
+	for f := range stateDefs {
+		finals = append(finals, f)
+	}
+	sort.Quick(finals, auto.CmpState)
+
 	termMap := make(map[grammar.Terminal][]auto.State)
-	for f, defs := range stateDefs {
+	for _, f := range finals {
+		defs := stateDefs[f]
 		switch len(defs) {
 		case 0:
 		case 1:
